@@ -257,9 +257,12 @@ def ref_lines(text: str) -> list[str]:
 
 
 def nest_depth(text: str) -> int:
-    """a lower bound on the recursion the front end needs: deepest bracket nesting plus the longest run
-    of prefix operators"""
-    d = best = run = best_run = 0
+    """how much recursion the text can ask of the front end (scanner: one level per open bracket; grammar
+    parser: one level per open bracket, per prefix operator of a run, and per operand of a ~ / | chain — the
+    operators are right-recursive; optimizer: the depth of the tree, which a run of postfix operators also
+    builds): deepest bracket nesting + longest run of prefix operators, or the number of infix operators, or
+    the longest run of postfix operators, whichever is largest"""
+    d = best = run = best_run = post = best_post = 0
     for c in text:
         if c in "([{":
             d += 1
@@ -271,7 +274,12 @@ def nest_depth(text: str) -> int:
             best_run = max(best_run, run)
         elif not c.isspace():
             run = 0
-    return best + best_run
+        if c in "*+?}":
+            post += 1
+            best_post = max(best_post, post)
+        elif not (c.isspace() or c.isdigit() or c in "{,"):
+            post = 0
+    return max(best + best_run, text.count("~") + text.count("|"), best_post)
 
 
 _BOUND_RE = re.compile(r"\{[\s\d,/*]*?(\d{6,})")
@@ -330,9 +338,10 @@ KNOWN = [
     {
         "key": "recursion-limit",
         "property": "C11",
-        "what": "key=recursion-limit nesting deeper than Python's recursion limit allows (about 330 parentheses or 990 "
-                "prefix operators under the default limit of 1000) raises RecursionError from Parser.from_grammar instead "
-                "of a PestGrammarError; the scanner, the grammar parser and the optimizer all recurse on the nesting depth",
+        "what": "key=recursion-limit nesting deeper than Python's recursion limit allows (under the default limit of 1000: "
+                "about 330 parentheses, 990 prefix operators, a chain of 500 operands of ~ or |, or 600 postfix operators "
+                "with the default optimizer) raises RecursionError from Parser.from_grammar instead of a PestGrammarError; "
+                "the scanner, the grammar parser and the optimizer all recurse on the depth of the expression",
         "witness": "a = { " + "(" * 1200 + '"x"' + ")" * 1200 + " }",
         # (text, failure dict) -> bool
         "match": lambda text, bad: bad["class"] == "exception:RecursionError" and nest_depth(text) >= 150,
@@ -620,7 +629,7 @@ def build_texts(prop: str, tier: str, sd: int) -> tuple[list[str], dict]:
         if thorough:
             for t in files.values():
                 bm += [t[:i] for i in range(len(t))]
-                bm += list(all_char_mutants(t)) if len(t) < 1600 else char_mutants(rng, t, 20000)
+                bm += list(all_char_mutants(t)) if len(t) < 1200 else char_mutants(rng, t, 15000)
         else:
             for t in files.values():
                 bm += [t[: rng.randrange(len(t) + 1)] for _ in range(60)]
@@ -788,7 +797,7 @@ def judge_c10(text: str, answer: str, answer_balanced):
             return "known:reversed-range-rejected", None
         if answer_balanced() == "fail":
             return "known:block-comment-peg-fallback", None
-        return "violation:rejects-valid", {"expected": "accepted (valid pest syntax)", "observed": f"PestGrammarSyntaxError: {r[1].args[0] if r[1].args else ''}"[:160]}
+        return "violation:rejects-valid:" + s, {"expected": "accepted (valid pest syntax)", "observed": f"PestGrammarSyntaxError: {r[1].args[0] if r[1].args else ''}"[:160]}
     cmp_ = compare_structure(text, pairs, r[1])
     if cmp_ is None:
         return "agree", None
@@ -956,6 +965,7 @@ def run(out: Outcome) -> None:
             key = (b["class"],)
         by_class.setdefault(key, b)
     reported = 0
+    not_reproduced: list[dict] = []
     for key, b in sorted(by_class.items(), key=lambda kv: len(kv[1]["text"])):
         if reported >= 12:
             break
@@ -964,7 +974,11 @@ def run(out: Outcome) -> None:
             optimized = b["optimizer"] == "default"
             small = shrink_text(text, c11_fails_like(b["class"], optimized))
             bad = check_total(small, optimized)
+            if not bad:                      # e.g. a RecursionError that depends on the caller's own stack depth
+                small = text
+                bad = check_total(small, optimized)
             if not bad:
+                not_reproduced.append({"class": b["class"], "optimizer": b["optimizer"], "text_repr": repr(text)[:200]})
                 continue
             out.violation({"kind": "totality", "text": cps(small), "text_repr": repr(small)[:400], "optimizer": b["optimizer"], **bad,
                            "shrunk_from": b["text"] if len(b["text"]) < 600 else b["text"][:600], "seed": seed(),
@@ -976,6 +990,11 @@ def run(out: Outcome) -> None:
             a = ask_oracle([small])[0]
             v, detail = judge_c10(small, a, lambda small=small: ask_oracle([small], balanced=True)[0])
             if not v.startswith("violation:"):
+                small = text
+                a = ask_oracle([small])[0]
+                v, detail = judge_c10(small, a, lambda small=small: ask_oracle([small], balanced=True)[0])
+            if not v.startswith("violation:"):
+                not_reproduced.append({"class": b["class"], "text_repr": repr(text)[:200]})
                 continue
             out.violation({"kind": "syntax", "text": cps(small), "text_repr": repr(small)[:400], "class": v[10:], **(detail or {}),
                            "oracle": "valid pest syntax" if a.startswith("ok ") else "not derivable from pest's meta-grammar",
@@ -1016,6 +1035,7 @@ def run(out: Outcome) -> None:
             "sources": counts,
             "failures_found": nbad,
             "attributed_to_known_findings": dict(known_hits),
+            "not_reproduced_on_recheck": not_reproduced,
             "correspondence_requests": ncorr,
             "correspondence_mismatches": ncorr_bad,
             "samples": samples,
@@ -1041,6 +1061,7 @@ def run(out: Outcome) -> None:
             "sources": counts,
             "verdicts": dict(stats),
             "failures_found": nbad,
+            "not_reproduced_on_recheck": not_reproduced,
             "correspondence_requests": ncorr,
             "correspondence_mismatches": ncorr_bad,
             "samples": samples,
